@@ -241,7 +241,10 @@ class Task:
             if connection == "keep-alive":
                 if not content_length_header:
                     self.set_close_on_finish()
-                else:
+                elif not self.close_on_finish:
+                    # (a response that is already known to be the last one,
+                    # e.g. an error page, must not promise keep-alive next
+                    # to its "Connection: close")
                     self.response_headers.append(("Connection", "Keep-Alive"))
             else:
                 self.set_close_on_finish()
